@@ -569,35 +569,87 @@ pub fn gen_batch(seed: u64, batch: usize, n_full: usize, n_names: usize) -> Vec<
 
 // ------------------------------------------------------------------ emitter
 
+/// spelling choices that do not change what a declaration means are made from a hash of the text concerned (deterministic)
+fn spell(s: &str, salt: usize) -> usize {
+    let mut h = 0xcbf29ce484222325u64 ^ salt as u64;
+    for b in s.bytes() {
+        h = (h ^ b as u64).wrapping_mul(0x100000001b3);
+    }
+    (h >> 17) as usize
+}
+
 fn emit_doc(out: &mut String, doc: &[Vec<String>], indent: &str) {
     // unusual but legal shapes of the same paragraphs: several blank lines between paragraphs, a blank line before the first
-    // and after the last one, extra blanks around a line (rustdoc's meaning is the same)
-    let style = doc.iter().flatten().map(|l| l.len()).sum::<usize>() % 4;
-    if style == 2 && !doc.is_empty() {
-        let _ = writeln!(out, "{}///", indent);
+    // and after the last one, extra blanks around a line (rustdoc's meaning is the same); `#[doc = "..."]` attributes instead
+    // of `///` lines; one `/** ... */` block comment (a single attribute whose text has line breaks inside); doc attributes that
+    // are not text (`#[doc(alias = "..")]`) in between
+    let style = doc.iter().flatten().map(|l| l.len()).sum::<usize>() % 7;
+    if doc.is_empty() {
+        return;
+    }
+    if style == 5 {
+        // block comment: the first line directly after the opener, the others indented, blank line between paragraphs
+        let mut text = String::new();
+        for (pi, para) in doc.iter().enumerate() {
+            if pi > 0 {
+                text.push_str("\n");
+            }
+            for l in para {
+                if !text.is_empty() {
+                    text.push('\n');
+                    text.push_str(indent);
+                    text.push_str("    ");
+                }
+                text.push_str(l);
+            }
+        }
+        let _ = writeln!(out, "{}/** {} */", indent, text);
+        return;
+    }
+    let line = |out: &mut String, l: &str| {
+        if style == 4 {
+            let _ = writeln!(out, "{}#[doc = {:?}]", indent, if l.is_empty() { String::new() } else { format!(" {}", l) });
+        } else if l.is_empty() {
+            let _ = writeln!(out, "{}///", indent);
+        } else if style == 3 {
+            let _ = writeln!(out, "{}///   {}  ", indent, l);
+        } else {
+            let _ = writeln!(out, "{}/// {}", indent, l);
+        }
+    };
+    if style == 2 {
+        line(out, "");
     }
     for (pi, para) in doc.iter().enumerate() {
         if pi > 0 {
             for _ in 0..(if style == 1 || style == 2 { 1 + pi } else { 1 }) {
-                let _ = writeln!(out, "{}///", indent);
+                line(out, "");
             }
         }
-        for l in para {
-            if style == 3 {
-                let _ = writeln!(out, "{}///   {}  ", indent, l);
-            } else {
-                let _ = writeln!(out, "{}/// {}", indent, l);
+        for (li, l) in para.iter().enumerate() {
+            line(out, l);
+            if style == 6 && pi == 0 && li == 0 {
+                let _ = writeln!(out, "{}#[doc(alias = \"zz\")]", indent);
             }
         }
     }
-    if style == 2 && !doc.is_empty() {
-        let _ = writeln!(out, "{}///", indent);
+    if style == 2 {
+        line(out, "");
+    }
+}
+
+/// `Option<T>` under the three paths the macros recognise
+fn option_of(t: &str, key: &str) -> String {
+    match spell(key, 3) % 5 {
+        0 => format!("core::option::Option<{}>", t),
+        1 => format!("std::option::Option<{}>", t),
+        _ => format!("Option<{}>", t),
     }
 }
 
 fn rust_ty(f: &FieldSpec) -> String {
     if f.optional {
-        format!("Option<{}>", f.ty.name())
+        option_of(f.ty.name(), &f.name)
     } else {
         f.ty.name().to_string()
     }
@@ -609,7 +661,12 @@ fn emit_field(out: &mut String, f: &FieldSpec) {
     if let FieldKind::Named { long, short, long_explicit, short_explicit } = &f.kind {
         if let Some(s) = short {
             if *short_explicit {
-                attrs.push(format!("short = {:?}", s));
+                // a character literal or a one-character string literal
+                if spell(&f.name, 1) % 3 == 0 {
+                    attrs.push(format!("short = {:?}", s.to_string()));
+                } else {
+                    attrs.push(format!("short = {:?}", s));
+                }
             } else {
                 attrs.push("short".into());
             }
@@ -659,17 +716,19 @@ fn emit_enum(out: &mut String, d: &Decl, e: &EnumSpec) {
             let se = &d.enums[s.enum_idx];
             let t = format!("{}{}", se.ident, if se.lifetime { "<'a>" } else { "" });
             if s.optional {
-                format!("Option<{}>", t)
+                option_of(&t, &v.ident)
             } else {
                 t
             }
         };
+        // a raw identifier names the same variant: `r#Name` is `Name`
+        let vid = if spell(&v.ident, 7) % 6 == 0 { format!("r#{}", v.ident) } else { v.ident.clone() };
         if v.is_unit() {
-            let _ = writeln!(out, "        {},", v.ident);
+            let _ = writeln!(out, "        {},", vid);
         } else if v.is_tuple() {
-            let _ = writeln!(out, "        {}({}),", v.ident, sub_ty(v.sub.as_ref().unwrap()));
+            let _ = writeln!(out, "        {}({}),", vid, sub_ty(v.sub.as_ref().unwrap()));
         } else {
-            let _ = writeln!(out, "        {} {{", v.ident);
+            let _ = writeln!(out, "        {} {{", vid);
             let mut idx = 0;
             for (i, f) in v.fields.iter().enumerate() {
                 if let Some(s) = &v.sub {
